@@ -93,6 +93,19 @@ def summarize(beh):
     return " ; ".join(parts)
 
 
+def sample_detail(beh, limit=1500):
+    """One explored behaviour written out: per step the action, its plain arguments and the decoded expected values."""
+    out = []
+    for st in beh:
+        d = {"act": st["act"], "args": {k: v for k, v in st["a"].items() if isinstance(v, (int, str, bool, list))}}
+        for fld in ("o", "mo", "ret"):
+            if st[fld]:
+                txt = json.dumps(decode.to_jsonable(decode.to_float(st[fld])), default=str)
+                d["expected_" + fld] = txt if len(txt) <= limit else txt[:limit] + "...(truncated)"
+        out.append(d)
+    return out
+
+
 def write_replay(prop, beh, mm):
     rdir = os.environ.get("VERIF_REPLAY_DIR") or os.path.join(VERIF, "replays")
     os.makedirs(rdir, exist_ok=True)
@@ -206,6 +219,7 @@ def run_check(prop, tier, seed):
         step = max(1, len(behs) // 3)
         for b in behs[::step][:3]:
             samples.append({"instance": inst["cfg"], "behaviour": summarize(b)})
+        samples.append({"instance": inst["cfg"], "behaviour_with_expected_values": sample_detail(behs[len(behs) // 2])})
         for b in behs:
             nt, key = nontrivial_key(b)
             if nt:
